@@ -29,7 +29,8 @@ def main():
         tier = sys.argv[sys.argv.index("--tier") + 1]
     meta = json.load(open(os.path.join(out, "meta.json")))
     prop = meta["property"]
-    mid = "%s-%s" % (prop, os.path.basename(out))
+    tag = sys.argv[sys.argv.index("--tag") + 1] if "--tag" in sys.argv else ""
+    mid = "%s-%s%s" % (prop, tag, os.path.basename(out))
     patch = os.path.join(out, "patch.diff")
     demo = os.path.join(out, "demo.py")
     env = dict(os.environ, PYTHONPATH=os.path.join(wt, "src"))
